@@ -64,7 +64,7 @@ def _cmds(rng, ncon, style):
 def gen(rng, n, tier):
     out = []
     for _ in range(n):
-        style = rng.weighted([(5, "mixed"), (3, "burst"), (2, "closey")])
+        style = rng.weighted([(4, "mixed"), (3, "burst"), (2, "closey"), (3, "backpressure")])
         ncon = [0]
         script = []
         if style == "burst":
@@ -74,6 +74,12 @@ def gen(rng, n, tier):
         for _ in range(rng.randint(1, 14)):
             script.append(_cmds(rng, ncon, style))
         acts = []
+        if style == "backpressure":
+            script.insert(0, [["open", rng.below(ADDRS)]] + ([["open", rng.below(ADDRS)]] if rng.chance(0.4) else []))
+            acts = [["hook", 0, False], ["hook", 0, False], ["hook", 0, False], ["conn", 0, True], ["conn", 0, True],
+                    ["hook", 0, False], ["hook", 0, False], ["congest", rng.below(3)]]
+            if rng.chance(0.5):
+                acts.append(["congest", rng.below(3)])
         for _ in range(rng.randint(2, 30)):
             r = rng.random()
             s = rng.below(16)
@@ -87,8 +93,15 @@ def gen(rng, n, tier):
                 acts.append(["conn", s, rng.chance(0.75)])
             elif r < 0.93:
                 acts.append(["timeout"])
+            elif r < 0.96 or style != "backpressure":
+                acts.append(["break", s] if rng.chance(0.6) else ["congest", s])
             else:
-                acts.append(["break", s])
+                acts.append(["congest", s])
+            if style == "backpressure" and rng.chance(0.35):
+                acts.append(rng.weighted([(3, ["read", s, "data"]), (2, ["drain", rng.chance(0.7)]), (2, ["congest", s]),
+                                          (1, ["timeout"])]))
+            elif rng.chance(0.04):
+                acts.append(["drain", rng.chance(0.7)])
         out.append({"script": script, "acts": acts})
     return out
 
@@ -153,6 +166,7 @@ class _Harness:
         self.pend_hook = {}    # tid tuple -> future
         self.pend_read = {}    # cid -> future
         self.pend_conn = {}    # cid -> future
+        self.pend_drain = {}   # cid of the task blocked in drain -> future
         self.writers = {}
         self.script = [list(x) for x in case["script"]]
         self.nev = 0
@@ -198,7 +212,7 @@ class _Reader:
 
 class _Writer:
     def __init__(self, H, c):
-        self.H, self.c, self.closed, self.broken = H, c, False, False
+        self.H, self.c, self.closed, self.broken, self.congested = H, c, False, False, False
 
     def get_extra_info(self, name, default=None):
         return {"peername": ("10.0.0.%d" % self.c, 80), "sockname": ("10.9.9.9", 1000 + self.c)}.get(name, default)
@@ -219,8 +233,27 @@ class _Writer:
         self.closed = True
 
     async def drain(self):
-        if self.broken and not self.closed:
+        if self.closed:
+            return
+        if self.broken:
             raise OSError("broken")
+        if self.congested:      # above the high-water mark: block until the schedule completes the drain
+            H = self.H
+            t = H.cur()[1]
+            H.log.append(["drainwait", self.c])
+            fut = asyncio.get_running_loop().create_future()
+            H.pend_drain[t] = fut
+            try:
+                ok = await fut
+            except asyncio.CancelledError:
+                H.log.append(["xdrain_cancel", t, self.c])
+                raise
+            finally:
+                if H.pend_drain.get(t) is fut:
+                    del H.pend_drain[t]
+            self.congested = False
+            if not ok:
+                raise OSError("write failed")
 
 
 class _Layer:
@@ -353,7 +386,8 @@ def run_impl(case):
                 tr = sorted([H.cid[c], io.writer is not None, bool(io.writer and io.writer.closed)]
                             for c, io in h.transports.items())
                 sems = sorted([int(a[0][4:]), s._value, len(s._waiters or ())] for a, s in h.max_conns.items())
-                H.log.append(["snap", tr, sems])
+                lk = h._drain_lock
+                H.log.append(["snap", tr, sems, [int(lk.locked()), len(lk._waiters or ())]])
 
             async def settle():
                 idle = 0
@@ -395,6 +429,20 @@ def run_impl(case):
                         await h.on_timeout()
                     except AssertionError:
                         pass
+                elif k == "congest":
+                    keys = sorted(c for c, w in H.writers.items() if not w.congested)
+                    if not keys:
+                        return
+                    c = keys[a[1] % len(keys)]
+                    H.log.append(["act", "congest", c])
+                    H.writers[c].congested = True
+                elif k == "drain":
+                    keys = sorted(H.pend_drain)
+                    if not keys:
+                        return
+                    c = keys[0]
+                    H.log.append(["act", "drain", c, bool(a[1])])
+                    H.pend_drain[c].set_result(bool(a[1]))
                 elif k == "break":
                     keys = sorted(c for c, w in H.writers.items() if not w.broken)
                     if not keys:
@@ -415,6 +463,7 @@ def run_impl(case):
                 else:
                     break
             H.main_done = mt.done()
+            H.writers_final = sorted([c, w.closed] for c, w in H.writers.items())
             H.leftover = sorted(list(t) for t in H.alive)
             for _ in range(12):      # harness cleanup (not part of the observation)
                 rest = [t for t in asyncio.all_tasks() if t is not asyncio.current_task() and not t.done()]
@@ -434,6 +483,7 @@ def run_impl(case):
     # cut the log at the end of the epilogue (the final cancel sweep is harness cleanup)
     last = max(i for i, e in enumerate(H.log) if e[0] == "snap")
     return {"log": H.log[:last + 1], "main_done": H.main_done, "leftover": H.leftover,
+            "writers": H.writers_final,
             "addr": [[c, a] for c, a in sorted(H.addr_of.items())]}
 
 
@@ -463,15 +513,17 @@ def _ev(e):
         return [0, e[1], e[2]]
     if k == "ev":
         return {"start": [1], "data": [2, e[2]], "closed": [3, e[2]], "occ": [4, e[2], int(e[3])],
-                "hookdone": [5, e[2]]}.get(e[1], [13])
+                "hookdone": [5, e[2]]}.get(e[1], [60])
     if k in ("connect", "read", "write", "eof", "close"):
         return [{"connect": 6, "read": 7, "write": 8, "eof": 9, "close": 10}[k], e[1]]
     if k == "crash":
         return [11]
     if k == "done":
         return [12] + _tid(e[1]) + [e[2]]
+    if k == "drainwait":
+        return [13, e[1]]
     if k == "hcrash":
-        return [13]          # not decodable: forces a disagreement
+        return [60]          # not decodable: forces a disagreement
     return None
 
 
@@ -508,6 +560,10 @@ def coq_case(case, obs):
                 toks += [2, e[2], int(e[3])]
             elif a == "timeout":
                 toks += [3]
+            elif a == "congest":
+                toks += [8, e[2]]
+            elif a == "drain":
+                toks += [9, e[2], int(e[3])]
             else:
                 toks += [4, e[2]]
         elif k == "snap":
@@ -517,6 +573,7 @@ def coq_case(case, obs):
             cur.append(len(e[2]))
             for x in e[2]:
                 cur += [x[0], x[1], x[2]]
+            cur += e[3]
             toks += [7] if cur == last_snap else cur
             last_snap = cur
         elif k.startswith("x"):
@@ -658,7 +715,7 @@ def oracle(case, obs):
                     key = "cancel-in-server-connected-hook"
                 elif c in late:
                     key = "open-after-teardown"
-                elif c == 0:
+                elif c == 0 and not any(e[0] == "read" and e[1] == 0 for e in log):
                     key = "client-cancelled-before-start"
                 else:
                     key = "socket-left-open"
@@ -674,6 +731,25 @@ def oracle(case, obs):
                 w = info.get(t[1], {}).get("w", [])
                 if w[-1:] != ["server_disconnected"] and not any(x["what"].startswith(f"connection {t[1]}") for x in v):
                     v.append({"key": "server-task-stuck", "what": f"connection {t[1]} task outlives handle_client (hooks {w})"})
+    # (5) every writer was closed once handle_client has returned
+    if obs["main_done"]:
+        for c, closed in obs["writers"]:
+            if not closed and not any(x["what"].find(f"connection {c} ") >= 0 or x["what"].startswith(f"connection {c}:") for x in v):
+                if c in lost_connected:
+                    key = "cancel-in-server-connected-hook"
+                elif c in late:
+                    key = "open-after-teardown"
+                elif c == 0 and not any(e[0] == "read" and e[1] == 0 for e in log):
+                    key = "client-cancelled-before-start"
+                else:
+                    key = "writer-never-closed"
+                v.append({"key": key, "what": f"handle_client returned but the writer of connection {c} was never closed"})
+    # (6) ConnectionClosed is delivered for every connection whose handler ran and ended
+    ended = {e[1][1] for e in log if e[0] == "done" and e[1][0] == "c"}
+    for c in sorted(ended):
+        if any(e[0] == "read" and e[1] == c for e in log) and not any(e[0] == "ev" and e[1] == "closed" and e[2] == c for e in log):
+            v.append({"key": "connection-closed-not-delivered",
+                      "what": f"the handler of connection {c} ended but the layer never received ConnectionClosed for it"})
     # de-duplicate by key+what
     out, seen = [], set()
     for x in v:
@@ -702,6 +778,12 @@ def classify(case, obs):
         t.add("server_event-crash")
     if any(e[0] == "eof" for e in log):
         t.add("half-close")
+    if any(e[0] == "drainwait" for e in log):
+        t.add("drain-blocked")
+    if any(e[0] == "xdrain_cancel" for e in log):
+        t.add("cancelled-in-drain")
+    if any(e[0] == "snap" and e[3][1] > 0 for e in log):
+        t.add("drain-lock-waiters")
     if any(e[0] == "act" and e[1] == "hook" and e[3] for e in log):
         t.add("kill")
     if not obs["main_done"]:
